@@ -8,6 +8,7 @@ import (
 	"math/rand"
 	"os"
 	"sync"
+	"time"
 
 	"verifharness/gen"
 	"verifharness/seqdrv"
@@ -18,6 +19,7 @@ import (
 func cmdSeq(args []string) int {
 	fs := flag.NewFlagSet("seq", flag.ExitOnError)
 	mode := fs.String("mode", "s2", "s2|s2after|rnd|chain")
+	faults := fs.Bool("faults", false, "generate faulty calls (panic / stall) followed by probes")
 	seed := fs.Int64("seed", 1, "seed")
 	n := fs.Int("n", 100, "number of cases")
 	calls := fs.Int("calls", 4, "calls per case")
@@ -72,7 +74,15 @@ func cmdSeq(args []string) int {
 			c.On = true
 			c.Binds = append(c.Binds, gen.RandBinding(r, index, 0.6), gen.RandBinding(r, index, 0.5))
 		}
-		c.Calls = gen.RandCalls(r, c, *calls, *vetoP, 2)
+		if *faults {
+			if !c.On {
+				c.On = true
+				c.Binds = append(c.Binds, gen.FullBinding(index))
+			}
+			c.Calls = gen.FaultCalls(r, c, *calls)
+		} else {
+			c.Calls = gen.RandCalls(r, c, *calls, *vetoP, 2)
+		}
 		cases = append(cases, c)
 	}
 
@@ -101,7 +111,11 @@ func cmdSeq(args []string) int {
 		go func(i int, c *gen.Case) {
 			defer wg.Done()
 			defer func() { <-sem }()
-			lines, err := seqdrv.Run(c, seqdrv.Opts{Views: *views})
+			o := seqdrv.Opts{Views: *views}
+			if *faults {
+				o.HandlerTimeout = 150 * time.Millisecond
+			}
+			lines, err := seqdrv.Run(c, o)
 			results[i] = res{i % *shards, lines, err}
 		}(i, c)
 	}
